@@ -197,7 +197,20 @@ M("c19-zero-id","C19","compliance/flush.go","\telectionID.Inc()\n\taddFlushEntri
 M("c19-add-too-small","C19","compliance/election.go","\tdefer electionID.Add(2)","\tdefer electionID.Add(1)","ELECTION-IDS-FORWARD")
 N("c19-n-explicit-flush","C19","compliance/mpls.go","\tdefer flushServer(c, t)","\tdefer func() { flushServer(c, t) }()",note="deferred closure calling flushServer")
 
+# ---------------- round 4 rules
+M("c01-lookup-key-rewritten","C01",R,"\treturn r.r.Afts.Ipv6Entry[prefix]","\treturn r.r.Afts.Ipv6Entry[fmt.Sprintf(\"%s\", prefix)+\"\"]","TABLE-KEY-IDENTITY")
+M("c06-readd-nexthop-parked","C06",R,"\tif _, err := r.doAddNH(","\tif r.nhExists(e.GetIndex()) && !explicitReplace && e.GetNextHop() == nil {\n\t\treturn false, nil, nil\n\t}\n\tif _, err := r.doAddNH(","HELD-ONLY-UNRESOLVED")
+M("c07-invalid-holder-skipped","C07",S,"\t\tif err := netInst.GetRIB(filter, msgCh, stopCh); err != nil {","\t\tif !netInst.IsValid() {\n\t\t\tcontinue\n\t\t}\n\t\tif err := netInst.GetRIB(filter, msgCh, stopCh); err != nil {","GET-SCOPE")
+M("c08-flush-deletes-counter","C08",R,"\tdelete(r.r.Afts.NextHop, index)\n\tif r.postChangeHook != nil {","\tdelete(r.r.Afts.NextHop, index)\n\tdelete(r.refCounts.NextHop, index)\n\tif r.postChangeHook != nil {","COUNTER-CALLERS")
+M("c09-new-session-preserve","C09",S,"\t\tparams: &clientParams{},","\t\tparams: &clientParams{Persist: true},","NEW-SESSION-DEFAULTS")
+M("c14-read-eof-not-recorded","C14",C,"func (c *Client) addReadErr(err error) {\n","func (c *Client) addReadErr(err error) {\n\tif err == io.EOF {\n\t\treturn\n\t}\n","ERROR-SINKS")
+M("c16-flush-silences-hook","C16",R,"\t\tniR.mu.Lock()\n\t\tdefer niR.mu.Unlock()\n","\t\tniR.mu.Lock()\n\t\tdefer niR.mu.Unlock()\n\t\tsaved := niR.postChangeHook\n\t\tniR.postChangeHook = nil\n\t\tdefer func() { niR.postChangeHook = saved }()\n","HOOK-WRITERS")
+M("c18-start-puts-initial-id-back","C18",F,"\t\topts = append(opts, client.ElectedPrimaryClient(g.connection.electionID))","\t\topts = append(opts, client.ElectedPrimaryClient(g.connection.electionID))\n\t\tg.currentElectionID = g.connection.electionID","CURRENT-ELECTION-ID")
+M("c19-close-without-conn-skips-teardown","C19",C,"func (c *Client) Close() error {\n\tc.disconnect()\n\tif c.conn == nil {\n\t\treturn nil\n\t}","func (c *Client) Close() error {\n\tif c.conn == nil {\n\t\treturn nil\n\t}\n\tc.disconnect()","LIFECYCLE")
+M("c10-master-cleared-on-exit","C10",S,"\tdelete(s.cs, id)","\tdelete(s.cs, id)\n\ts.elecMu.Lock()\n\tif s.curMaster == id {\n\t\ts.curMaster = \"\"\n\t}\n\ts.elecMu.Unlock()","ELECTION-WRITERS")
+N("c13-n-errsink-local","C13",C,"\tc.sendErr = append(c.sendErr, err)","\te := err\n\tc.sendErr = append(c.sendErr, e)",note="error handed on through a local")
 # ---------------- round 3 rules
+M("c13-nil-result-appended","C13",C,"\t\tif err != nil {\n\t\t\treturn fmt.Errorf(\"cannot remove pending operation %d, %v\", r.Id, err)\n\t\t}\n\t\t// There is no result to report for an operation that has already been\n\t\t// completed - the result queue never holds nil entries.\n\t\tif res != nil {\n\t\t\tc.qs.resultq = append(c.qs.resultq, res)\n\t\t}","\t\tc.qs.resultq = append(c.qs.resultq, res)\n\t\tif err != nil {\n\t\t\treturn fmt.Errorf(\"cannot remove pending operation %d, %v\", r.Id, err)\n\t\t}","RESPONSE-ACCOUNTING",note="revert of fix dfe44f8")
 M("c02-probe-wrong-option-type","C02",R,"func hasDisableCheckFn(opt []RIBOpt) bool {\n\tfor _, o := range opt {\n\t\tif _, ok := o.(*disableCheckFn); ok {","func hasDisableCheckFn(opt []RIBOpt) bool {\n\tfor _, o := range opt {\n\t\tif _, ok := o.(*disableForwardRef); ok {","OPTION-PROBES",note="disallowing forward references also switches the gate off")
 M("c02-probe-any-option","C02",R,"func hasDisableForwardRef(opt []RIBOpt) bool {\n\tfor _, o := range opt {\n\t\tif _, ok := o.(*disableForwardRef); ok {\n\t\t\treturn true\n\t\t}\n\t}","func hasDisableForwardRef(opt []RIBOpt) bool {\n\tfor _, o := range opt {\n\t\tif _, ok := o.(*disableForwardRef); ok || o != nil {\n\t\t\treturn true\n\t\t}\n\t}","OPTION-PROBES")
 M("c02-server-option-miswired","C02",S,"\tif hasWithNoRIBForwardReferences(opt) {\n\t\tribOpt = append(ribOpt, rib.DisableForwardReferences())","\tif hasWithNoRIBForwardReferences(opt) {\n\t\tribOpt = append(ribOpt, rib.DisableRIBCheckFn())","SERVER-WIRING")
